@@ -1,6 +1,6 @@
 \* scenario generation for the C13 (b)-(d) stage (checks/c13_sched_stage.py): every pool feature, both catalogs, with / without daemonsets
 CONSTANTS WeightVecs = {6}  FeatDiag = TRUE  NPods = 2  PodArchs = {1, 2, 3, 6}
-CONSTANTS Feats = {"plain", "taint", "prefer", "limit", "limit16", "zoneA", "teamX", "min2", "notReady", "startup"}
+CONSTANTS Feats = {"plain", "taint", "prefer", "limit", "limit16", "zoneA", "teamX", "min2", "archMin2", "notReady", "startup"}
 CONSTANTS Catalogs = {1, 2}  DaemonSets = {0, 2}  MaxTypesSet = {2}  Policies = {"Strict"}  Weak = ""
 SPECIFICATION GenSpec
 INVARIANTS GenPrint
